@@ -1346,6 +1346,124 @@ func ruleTabSuffix(c *Ctx, r *Rep) {
 		}
 	}
 	r.Check(lowered, "lower-cased", pos, "suffix tests run on strings.ToLower(name)", sprintf("%v", lowered))
+	suffixDecides(c, r, want)
+}
+
+// suffixDecides: in the directory walk, the configuration reader is reached exactly for entries that are not directories
+// and whose name has one of the suffixes - decided over every path from the callback's entry to the call, with the suffix
+// tests and the directory test as free booleans (helpers and boolean variables resolved along the path).
+func suffixDecides(c *Ctx, r *Rep, want []string) {
+	parse := c.Func("generator/config", "ParseConfig")
+	if parse == nil {
+		return
+	}
+	for fn := range c.walkCallbacks() {
+		// the call that leads to the reader: ParseConfig itself or a module function below which it is called
+		var site ssa.CallInstruction
+		for _, ci := range callsIn(fn) {
+			g := ci.Common().StaticCallee()
+			if g == nil {
+				continue
+			}
+			if g == parse || (c.InModule(g) && g.Blocks != nil && reachesStatically(c, g, parse, 0)) {
+				site = ci
+				break
+			}
+		}
+		if site == nil {
+			continue
+		}
+		fk := c.FuncKey(fn)
+		a := &atomizer{c: c, pv: c.newProv(), fn: fn, unroll: 1}
+		paths, ok := a.pathsDNF(fn.Blocks[0], site.Block(), 20000)
+		if !ok {
+			r.Undecided("shape:suffix-decides|"+fk, c.Pos(site.Pos()), "too many paths to the reader")
+			continue
+		}
+		classify := func(atom string) string {
+			if strings.Contains(atom, "HasSuffix(") {
+				for _, w := range want {
+					if strings.Contains(atom, "K(\""+w+"\")") {
+						return w
+					}
+				}
+				return "any" // a test against an element of the suffix list
+			}
+			if strings.Contains(atom, "regexp.Regexp).MatchString(") {
+				return "any"
+			}
+			if strings.Contains(atom, "IsDir(") {
+				return "dir"
+			}
+			return ""
+		}
+		names := append([]string{"dir"}, want...)
+		// a list-driven or pattern-driven filter has one test that stands for "some suffix matches"; which suffixes
+		// those are is what the suffix|… obligations above decide
+		generic := false
+		for _, p := range paths {
+			for _, l := range p {
+				if classify(l.atom) == "any" {
+					generic = true
+				}
+			}
+		}
+		if generic {
+			names = []string{"dir", "any"}
+		}
+		bad := ""
+		for mask := 0; mask < 1<<len(names); mask++ {
+			val := map[string]bool{}
+			for i, n := range names {
+				val[n] = mask&(1<<i) != 0
+			}
+			reach := false
+			for _, p := range paths {
+				feasible := true
+				sign := map[string]bool{}
+				for _, l := range p {
+					cl := classify(l.atom)
+					if cl == "" {
+						continue // other tests (loop conditions change from round to round; errors are the environment's)
+					}
+					if generic && cl == "any" {
+						// a list is searched: one element matching is enough, the others may fail
+						if l.pos {
+							sign["any"] = true
+						}
+						continue
+					}
+					if was, dup := sign[l.atom]; dup && was != l.pos {
+						feasible = false
+					}
+					sign[l.atom] = l.pos
+					if cl != "any" && val[cl] != l.pos {
+						feasible = false
+					}
+				}
+				if generic && feasible {
+					// the path's outcome for "some suffix matches": true when a test came out true on it
+					if sign["any"] != val["any"] {
+						feasible = false
+					}
+				}
+				if feasible {
+					reach = true
+				}
+			}
+			anySuffix := generic && val["any"]
+			for _, w := range want {
+				if !generic && val[w] {
+					anySuffix = true
+				}
+			}
+			wantReach := !val["dir"] && anySuffix
+			if reach != wantReach {
+				bad = sprintf("with directory=%v and suffixes %v the reader is reached: %v", val["dir"], val, reach)
+			}
+		}
+		r.Check(bad == "", "suffix-decides|"+fk, c.Pos(site.Pos()), "the reader is reached exactly for non-directories with one of the suffixes", bad)
+	}
 }
 
 // ---- TAB-DATE / TAB-SERIAL / TAB-CLI live in rules_tables3.go ----
